@@ -35,16 +35,14 @@ theorem modelled_sites_are_the_models :
     (∀ row ∈ accounted, row.2.isModelled = true → ∃ s : PanicSite, row.1.func = s.name) :=
   modelled_sites_ok
 
-/-- After the repair no row of core is `modelled` any more: the only input-reachable unchecked assertion left in the table
-is the `u.(string)` of `Service.ProcessRequest` (a library entry point, C13-service-uri-not-string). -/
-theorem only_service_row_is_modelled :
-    ∀ row ∈ accounted, row.2.isModelled = true → row.1.file = "service/service.go" ∧ row.1.func = "Service.ProcessRequest" := by
-  have key : (accounted.all (fun row => !row.2.isModelled || (row.1.file == "service/service.go" && row.1.func == "Service.ProcessRequest"))) = true := by
-    decide +kernel
-  intro row hmem hm
+/-- After the repairs no row of the table is `modelled` any more: no unchecked assertion, explicit panic or constant index of
+core, sys and service is reachable from public input (the last one, the `u.(string)` of `Service.ProcessRequest`, was
+repaired in /repo). A new unchecked assertion is a new row of the regenerated table and breaks `asserts_accounted`. -/
+theorem no_row_is_modelled : ∀ row ∈ accounted, row.2.isModelled = false := by
+  have key : (accounted.all (fun row => !row.2.isModelled)) = true := by decide +kernel
+  intro row hmem
   rw [List.all_eq_true] at key
-  have := key row hmem
-  simpa [hm] using this
+  simpa using key row hmem
 
 /-! ## Lock discipline read from the extracted table -/
 
@@ -273,10 +271,14 @@ theorem linear_bad_rule_ignored :
 
 /-! ## Negative theorems that remain -/
 
-/-- N5 (confirmed, C13-service-uri-not-string): `Service.ProcessRequest` called as a library function asserts the "uri" of
-the request map. -/
-theorem service_front_panics : (serviceFront [("uri", .num 5)]).site = some .serviceUriNotString := by
-  decide +kernel
+/-- (former N5, C13-service-uri-not-string, repaired) `Service.ProcessRequest` called as a library function answers every
+request map with a result or an error: a "uri" of any type other than string is an error. -/
+theorem service_front_total (m : Obj) : (serviceFront m).isPanic = false ∧ (serviceFront m).isHang = false := by
+  unfold serviceFront
+  repeat' split
+  all_goals exact ⟨rfl, rfl⟩
+
+example : (serviceFront [("uri", .num 5)]).cls = "err" ∧ (serviceFront [("uri", .str "/api/version")]).cls = "ok" := by decide +kernel
 
 /-- N6 (confirmed, C13-unvalidated-rule-fact; no panic): `AddFact` stores a fact whose `rule` is not a valid rule — here
 `{"rule":{"when":{}}}`, indexed at the root of the pattern index — and from then on the rule search of EVERY event of the
